@@ -22,7 +22,7 @@ func init() {
 			{"C17/no-wrong-target", ruleC17NoWrongTarget},
 		},
 		Explanation: "Decides the table side of JSON-Pointer addressing: every Schema field whose type contains *Schema has one of the three handled shapes and enters the reflection registry (by JSON name, or by the explicit name switch for fields tagged `-`); JSON names that map to more than one Go field (items, dependencies) or to a field pair without registry entry (type) are decided by explicit comparisons before the last-writer-wins map is consulted, and `dependencies` selects the schema-bearing field; the escape and unescape replacers are, as sets of pairs, exactly RFC 6901's and are single-pass; the pointer walker returns a schema only from a checked type assertion and turns every failed lookup into an error, with both index bounds tested. It does NOT decide percent-decoding (net/url) nor which subschema a concrete pointer selects.",
-		NotDecided: []string{"percent-decoding of the fragment (net/url)", "that a concrete pointer string selects a concrete subschema", "segment splitting on '/' (killed by the suite when broken)"},
+		NotDecided:  []string{"percent-decoding of the fragment (net/url)", "that a concrete pointer string selects a concrete subschema", "segment splitting on '/' (killed by the suite when broken)"},
 	})
 	register(&Property{
 		ID: "C20",
@@ -34,7 +34,7 @@ func init() {
 			{"C20/tree-check", ruleC20TreeCheck},
 		},
 		Explanation: "Decides that the clone loop is total over the schema-bearing fields: the reflection registry contains every field whose type contains *Schema (recomputed from the type), the traversals sharing the registry (clone, child iteration, structure check) each handle all three shapes, inside the clone loop the three Set operations depend only on the shape dispatch, every container written back is freshly allocated and every element stored into it is the result of a recursive clone, the returned struct is a fresh copy, and the structure check rejects a second visit of one Schema object (which makes sharing detectable at Resolve). It does NOT observe equality of marshaled output of original and clone.",
-		NotDecided: []string{"equality of the marshaled output of original and clone as an observation", "that every element of a cloned container is overwritten (loop bounds)"},
+		NotDecided:  []string{"equality of the marshaled output of original and clone as an observation", "that every element of a cloned container is overwritten (loop bounds)"},
 	})
 }
 
@@ -1462,7 +1462,10 @@ func ruleC17SpecialOwnKeyword(c *Ctx) {
 // boundsFrom: which of `n >= 0` and `n < length` the guards establish, where isLen recognises the length value.
 func boundsFrom(guards []guardAtom, n ssa.Value, isLen func(ssa.Value) bool) (lower, upper bool) {
 	uses := func(v ssa.Value) bool { return v == n || dependsOn(v, []ssa.Value{n}, 2) || sameLoadSource(v, n) }
-	isZero := func(v ssa.Value) bool { k, ok := v.(*ssa.Const); return ok && k.Value != nil && k.Value.String() == "0" }
+	isZero := func(v ssa.Value) bool {
+		k, ok := v.(*ssa.Const)
+		return ok && k.Value != nil && k.Value.String() == "0"
+	}
 	for _, g := range guards {
 		bo, ok := g.Cond.(*ssa.BinOp)
 		if !ok {
